@@ -633,6 +633,14 @@ def m_product(R, args, kw, node):
     return const(Iter(ia.n, lambda i, ia=ia, b0=b0: const((ia.at(i), b0)), src_locs=list(getattr(ia, "src_locs", []) or []), seq=getattr(ia, "seq", None)))
 
 
+@builtin("bytearray")
+def m_bytearray(R, args, kw, node):
+    """bytearray() used as a local accumulator (`buf += chunk`): modelled as an immutable bytes value that the local is rebound to"""
+    if args or kw:
+        raise Unsupported("bytearray(...) with arguments")
+    return V(T.Bytes, z3.Empty(T.Bytes.sort()))
+
+
 @builtin("print")
 def m_print(R, args, kw, node):
     # diagnostics: assumption A7 (no contract-visible effect)
